@@ -234,9 +234,15 @@ def x1(ctx):
         ordinal[base] = ordinal.get(base, 0) + 1
         key = base if ordinal[base] == 1 else '%s#%d' % (base, ordinal[base])
         loc = ev.fn.loc(ev.node)
-        if role is None:
-            raise AnalysisError('X1: SQL statement comparing expire_time found in %s, which has no role in the frozen '
-                                'table (visibility/removal): %s' % (ev.fn.qual, st.text))
+        if role is None and vec is not None:
+            # a function outside the table (new API): its predicate must still be one of the two canonical forms -
+            # exactly the live items (NULL or > now) or only expired items including every `< now`
+            sel_cases = {c for c, t in zip(CASES, vec) if t}
+            canonical = vec == (True, False, False, True) or (sel_cases <= EXPIRED and '<' in sel_cases)
+            obs.append(Ob('X1', key, canonical,
+                          'the statement selects rows for expire_time cases %s (NULL,<,=,> now): neither the live '
+                          'predicate (NULL or > now) nor an expired predicate (every < now, nothing live)' % (vec,), loc))
+            continue
         if vec is None:
             obs.append(Ob('X1', key, False, why, loc))
         elif role == 'visibility':
